@@ -138,6 +138,9 @@ pub enum Foreign {
     /// a file named like an id the repository never had, but not in the shard directory of that
     /// id: 0 = directly in the type directory, 1 = in the shard directory of another id
     HexMisplaced { seed: u64, place: u8 },
+    /// regular files named like shard directories (`00`..`ff`) wherever the type directory has no
+    /// such directory yet: the cache cannot store new entries there. 0 = all, 1 = even, 2 = odd
+    ShardFiles(u8),
 }
 
 #[derive(Debug, Clone, PartialEq, Eq, Serialize, Deserialize)]
@@ -201,6 +204,7 @@ fn plant() -> BoxedStrategy<Plant> {
         2 => any::<u16>().prop_map(Foreign::TmpLeftover),
         3 => (0u8..3, any::<u16>()).prop_map(|(v, s)| Foreign::SubDir(v, s)),
         3 => (any::<u64>(), 0u16..600).prop_map(|(seed, len)| Foreign::HexNeverHad { seed, len }),
+        2 => (0u8..3).prop_map(Foreign::ShardFiles),
     ];
     prop_oneof![
         3 => (ptype(), any::<u16>()).prop_map(|(tpe, sel)| Plant::Stale { tpe, sel }),
@@ -856,6 +860,22 @@ impl Run {
                             dir.join(other).join(&h)
                         };
                         Self::write(&path, b"misplaced").then(|| format!("misplaced file {}", path.display()))
+                    }
+                    Foreign::ShardFiles(which) => {
+                        if fs::create_dir_all(&dir).is_err() {
+                            return None;
+                        }
+                        let mut n = 0;
+                        for b in 0u16..256 {
+                            if (*which == 1 && b % 2 == 1) || (*which == 2 && b % 2 == 0) {
+                                continue;
+                            }
+                            let path = dir.join(format!("{b:02x}"));
+                            if !path.exists() && Self::write(&path, b"not a directory") {
+                                n += 1;
+                            }
+                        }
+                        (n > 0).then(|| format!("{n} regular files named like shard directories in {}", dir.display()))
                     }
                 }
             }
